@@ -192,6 +192,9 @@ func cmdCheck(args []string) {
 		fmt.Println("ERROR: cannot load the repository with -tags verif:", err)
 		os.Exit(3)
 	}
+	if !*writeClaims {
+		e.baseLocals = loadBaseLocals(*verif)
+	}
 	timeout := 10 * time.Second
 	which := solvers
 	if *tier == "thorough" {
@@ -249,12 +252,78 @@ func cmdCheck(args []string) {
 	claims := loadLines(filepath.Join(*verif, "claims", *prop+".txt"))
 	unclaimed := loadLines(filepath.Join(*verif, "claims", *prop+".unclaimed.txt"))
 	findings := loadFindings(filepath.Join(*verif, "known_findings.txt"))
-	findingFor := func(name string) *Finding {
+	// An edit that adds or removes an obligation of the same class earlier in a function shifts the trailing ordinal of
+	// the later ones. Listed names (known findings, triaged unclaimed obligations) are therefore matched in two steps:
+	// exactly, and then - for failing obligations whose exact name is not listed - against the listed names of the same
+	// function, class and detail that no failing obligation matched exactly. A failure beyond the listed number for
+	// that function/class/detail is still a violation.
+	baseName := func(n string) string {
+		if i := strings.LastIndex(n, ":"); i > 0 {
+			if _, err := strconv.Atoi(n[i+1:]); err == nil {
+				return n[:i]
+			}
+		}
+		return n
+	}
+	failing := map[string]bool{}
+	for _, r := range reports {
+		for _, o := range r.obls {
+			if o.Status != "proved" {
+				failing[o.Name] = true
+			}
+		}
+	}
+	spare := map[string][]string{} // base -> listed names without an exactly matching failing obligation
+	addSpare := func(n string) {
+		if !failing[n] {
+			spare[baseName(n)] = append(spare[baseName(n)], n)
+		}
+	}
+	for i := range findings {
+		if findings[i].Kind == "finding" && findings[i].Property == *prop {
+			addSpare(findings[i].Obligation)
+		}
+	}
+	var unclaimedList []string
+	for n := range unclaimed {
+		unclaimedList = append(unclaimedList, n)
+	}
+	sort.Strings(unclaimedList)
+	for _, n := range unclaimedList {
+		addSpare(n)
+	}
+	renumbered := map[string]string{} // current name -> listed name
+	takeListed := func(name string) string {
+		if l, ok := renumbered[name]; ok {
+			return l
+		}
+		b := baseName(name)
+		if len(spare[b]) == 0 {
+			return ""
+		}
+		l := spare[b][0]
+		spare[b] = spare[b][1:]
+		renumbered[name] = l
+		return l
+	}
+	findingExact := func(name string) *Finding {
 		for i := range findings {
 			f := &findings[i]
 			if f.Kind == "finding" && f.Property == *prop && f.Obligation == name {
 				return f
 			}
+		}
+		return nil
+	}
+	findingFor := func(name string) *Finding {
+		if f := findingExact(name); f != nil {
+			return f
+		}
+		if unclaimed[name] || !failing[name] {
+			return nil
+		}
+		if l := takeListed(name); l != "" {
+			return findingExact(l) // nil when the spare listed name is an unclaimed one
 		}
 		return nil
 	}
@@ -321,6 +390,12 @@ func cmdCheck(args []string) {
 					undecided = append(undecided, o.Name+" ("+o.Status+")")
 					continue
 				}
+				if !isClaimed && !unclaimed[o.Name] {
+					if l := takeListed(o.Name); l != "" && unclaimed[l] {
+						undecided = append(undecided, o.Name+" ("+o.Status+"; listed as "+l+", renumbered)")
+						continue
+					}
+				}
 				nObl++
 				if *writeClaims {
 					continue
@@ -340,6 +415,13 @@ func cmdCheck(args []string) {
 
 	if *writeClaims {
 		writeClaimFiles(*verif, *prop, reports, findingFor)
+		upd := map[string]map[string]string{}
+		for _, r := range reports {
+			for k, m := range r.u.localLocs {
+				upd[k] = m
+			}
+		}
+		writeBaseLocals(*verif, upd)
 	}
 
 	// vacuity: assumptions of every unit must be satisfiable
